@@ -8,10 +8,10 @@ CLAIMED = {
    text='Seeded exploration of (Y, X, r, correction) cases, each executed in 4 simulated processes that differ in allocator behaviour (natural heap with seeded churn, two fixed poison words, a poison stream) and hash seed, 3 repetitions each; oracle = normal termination, finite, bit-identical score everywhere, unchanged under alterations of Y outside the reference sampler\'s rows, quota-0 = full data, and identical when asked through the pipeline\'s plumbing (numba_mi) while one process serves changing ratios; pipeline mode: the whole ranking task with --mi_stratified_sampling_ratio < 1 writes the same ranks under every poison pattern. Sampling, not proof.',
    note='Trusted: numba NRT routes through PyMem RAW after memsys_use_cpython_allocator(); the C shim fills fresh and freed blocks; crash = death-by-signal of the forked child. The reference sampler (sim/refmodel/subsample.py) is the statement\'s quota rule.'),
  'C05': dict(engine='pipe', design='§4 C05', technique='deterministic simulation: real task under a seeded worker-pool scheduler and virtual clock, refinement of every emitted score against a reference scorer',
-   text='Seeded exploration of batches of string columns x every documented non-surrogate heuristic x target-only/pairwise x pool sizes 1-16 x seeded schedules (assignment, service times, stalls, reordering, oversleeps and clock jumps) x optional second task in the same (long-lived) simulated process; every triplet that reaches the caller through the (simulated) pool is compared with a pure-Python reference scorer on the category codes of the frame that entered the rank graph, label as conditioning side. Sampling of inputs and schedules, not proof.',
+   text='Seeded exploration of batches of string columns x every documented non-surrogate heuristic x target-only/pairwise x pool sizes 1-16 x seeded schedules (assignment, service times, stalls, reordering, oversleeps and clock jumps) x optional second task in the same (long-lived) simulated process x (numba heuristics, ~1 run in 8) a generated --reference_model_JSON; every triplet that reaches the caller through the (simulated) pool is compared with a pure-Python reference scorer on the category codes of the frame that entered the rank graph, label as conditioning side. Sampling of inputs and schedules, not proof.',
    note='Trusted: SimPool mirrors multiprocess map_async (chunking, FIFO queue, ordered results, per-chunk dill copy, per-worker RNG/module state); reference scorers in sim/refmodel/heuristics.py (AMI delegated to scikit-learn); tolerance 1e-4(1+|ref|); max-value-coverage cases with a detected bucket collision are skipped and counted.'),
  'C06': dict(engine='pipe', design='§4 C06', technique='deterministic simulation: real rank graph under seeded pool schedules, pair-set oracle on what comes back from the pool',
-   text='Seeded exploration of column sets (1-40 columns, label anywhere, names containing the relation marker) x target-only/pairwise x 3mr/non-3mr (also near misses of the marker) x caps from 1 to beyond the candidate count x pool sizes/schedules x optional second task in the same process with another label; oracle (against the cap given on the command line): emitted unordered pairs are a subset of the requested set (equal when the cap cannot bind), both orientations with identical score and multiplicity, Constant lists each selected pair once with 0, no foreign column, evaluated count = min(cap, candidates).',
+   text='Seeded exploration of column sets (1-40 columns, label anywhere, names containing the relation marker) x target-only/pairwise x 3mr/non-3mr (also near misses of the marker) x caps from 1 to beyond the candidate count x pool sizes/schedules x optional second task in the same process with another label x (numba heuristics, ~1 run in 10) a generated --reference_model_JSON whose combined features join the feature space; oracle (against the cap given on the command line): emitted unordered pairs are a subset of the requested set (equal when the cap cannot bind), both orientations with identical score and multiplicity, Constant lists each selected pair once with 0, no foreign column, evaluated count = min(cap, candidates).',
    note='Trusted: SimPool as for C05; requested-pair model in sim/refmodel/pairs.py. The candidate count accepts both conventions (diagonal listed once or twice) so the oracle is no stricter than the statement.'),
  'C07': dict(engine='hist+pipe', design='§4 C07', technique='deterministic simulation: seeded batch histories on the real process-global counter in forked processes, per-step invariants against a counter model; same predicates on full multi-batch task runs',
    text='hist: seeded operation lists Batch(cap_i) over stable duplicate-free candidate lists (changing caps, interleaved key-disjoint second list) on the real prior_combinations_sample in a forked process; after every step: subset, distinct, len=min(cap,size), least-evaluated-first, counter==model, spread<=1. lists beyond 10^4 candidates included. pipe: the same predicates on every sampler call of multi-batch task runs with a binding cap (tail batches, kill + restart on the dirty directory, a second task in the same process), and combination_estimation_counts.json == recorded selections. The property itself has no fault dimension (stated in DESIGN); the pipeline part nevertheless runs under the pool/clock/crash simulator because the counter lives in process-global state that forked workers and restarts do not share.',
